@@ -116,5 +116,7 @@ def check(ctx: Ctx) -> None:
         st = ctx.nodes(f, lambda n: n.op == "assign" and any(e.path == "self.pool_size" for e in ctx.eff.of_node(n)))
         rep.ob("R15.5", "the constructor sets the initial size through the validated setter", bool(st), func=f, construct=st[0] if st else "(pool_size not assigned)")
         for n in ctx.distinct_sites(st):
-            rep.ob("R15.5", "the initial size is the constructor's pool_size argument", isinstance(n.ast.value, ast.Name) and n.ast.value.id == "pool_size", node=n)
+            from ..cfg import strip_cast as _sc
+            v_ = _sc(n.ast.value)  # (`cast(int, pool_size)` is pool_size)
+            rep.ob("R15.5", "the initial size is the constructor's pool_size argument", isinstance(v_, ast.Name) and v_.id == "pool_size", node=n)
     rep.rule("R15.5", "the constructor installs its pool_size argument through the setter")
